@@ -367,6 +367,12 @@ Section Guards.
   Definition second_int (P : Z -> bool) (s : state) : bool := match st_int s with _ :: z :: _ => P z | _ => false end.
   Definition top_float (P : f32 -> bool) (s : state) : bool := match st_float s with x :: _ => P x | [] => false end.
 
+  Fixpoint zero_over (top : list f32) (i off size : Z) : bool :=
+    match top with
+    | [] => false
+    | t :: r => (feq t f_zero && (0 <=? i + off) && (i + off <? size)) || zero_over r (i + 1) off size
+    end.
+
   Definition gd_all : list (string * (state -> bool)) :=
     [ (* documented: "If the top item is zero this acts as a NOOP" (the two operands are consumed) *)
       ("INTEGER./", top_int (fun z => z =? 0)); ("INTEGER.%", top_int (fun z => z =? 0));
@@ -406,7 +412,12 @@ Section Guards.
                                   | _ => false end);
       ("FLOATVECTOR.RAND", fun s => match st_int s, st_float s with
                                     | size :: _, _ :: sd :: _ => (size <? 0) || negb (f_is_finite sd) || flt sd f_zero
-                                    | _, _ => false end) ].
+                                    | _, _ => false end);
+      (* documented: "If at least one divisor is zero the instruction acts as NOOP" (both vectors and the offset
+         are consumed): element i of the top vector is zero and lies over position i + offset of the second *)
+      ("FLOATVECTOR./", fun s => match st_fvec s, st_int s with
+                                 | top :: second :: _, off :: _ => zero_over top 0 off (zlen second)
+                                 | _, _ => false end) ].
 
   Fixpoint gd_lookup (t : list (string * (state -> bool))) (n : string) : option (state -> bool) :=
     match t with
